@@ -43,6 +43,7 @@ type SyncEv struct {
 	ServedN   int    `json:"servedN"` // serve: how many headers the getter actually returned
 	DupNil    int    `json:"dupNil"` // collect: how many concurrent deliveries of the same header were accepted
 	HeadRet   int    `json:"headRet"`
+	Rt        bool   `json:"rt"` // recorded on real threads (no quiescence): timing-dependent clauses are not evaluated
 }
 
 type serveOutcome struct {
@@ -67,8 +68,26 @@ func TestSyncer(t *testing.T) {
 		realtime := mbt.Bool(c, "realtime")
 		wait := synctest.Wait
 		runIn := func(f func(t *testing.T)) { synctest.Test(t, f) }
+		var settleFP func() string
 		if realtime {
-			wait = func() { time.Sleep(4 * time.Millisecond) }
+			// no quiescence on real threads: wait until a cheap fingerprint of the node (store head, getter calls, sync
+			// state) has not moved for 60 ms (at least 4 ms, at most 5 s), so that a loaded machine is not mistaken for an
+			// idle node
+			wait = func() {
+				time.Sleep(4 * time.Millisecond)
+				if settleFP == nil {
+					return
+				}
+				last, same := settleFP(), 0
+				for deadline := time.Now().Add(5 * time.Second); time.Now().Before(deadline) && same < 30; {
+					time.Sleep(2 * time.Millisecond)
+					if fp := settleFP(); fp == last {
+						same++
+					} else {
+						last, same = fp, 0
+					}
+				}
+			}
 			runIn = func(f func(t *testing.T)) { f(t) }
 		}
 		runIn(func(t *testing.T) {
@@ -145,11 +164,22 @@ func TestSyncer(t *testing.T) {
 				drift = append(drift, "start: "+err.Error())
 				return
 			}
+			settleFP = func() string {
+				hh := 0
+				if hd, err := n.st.Head(bg); err == nil {
+					hh = int(hd.Height())
+				}
+				n.get.mu.Lock()
+				nc := len(n.get.calls)
+				n.get.mu.Unlock()
+				st := n.sy.State()
+				return fmt.Sprint(hh, nc, st.ID, st.Height, st.Error != "", st.Finished())
+			}
 			wait()
 			for i, st := range hist {
 				step, _ := st.(map[string]any)
 				e := mbt.Map(step, "ev")
-				ev := SyncEv{Tr: id, I: i, E: mbt.Str(e, "e"), Kind: mbt.Str(e, "kind"), H: mbt.Int(e, "h"), Holes: []int{}, Orphans: []int{}, SyncWait: "skipped", Free: free}
+				ev := SyncEv{Tr: id, I: i, E: mbt.Str(e, "e"), Kind: mbt.Str(e, "kind"), H: mbt.Int(e, "h"), Holes: []int{}, Orphans: []int{}, SyncWait: "skipped", Free: free, Rt: realtime}
 				var bad *vh.Header
 				func() {
 					defer func() {
@@ -254,27 +284,42 @@ func TestSyncer(t *testing.T) {
 					ev.ServedN = lastServed
 					n.get.mu.Unlock()
 				}
-				// observation
-				if hd, err := n.st.Head(bg); err == nil {
-					ev.Head = int(hd.Height())
+				// observation.  On real threads there is no quiescence to wait for: a scan that finds the store in the middle
+				// of an append (a hole, an orphan) is repeated, and only what persists for half a second is recorded.
+				scan := func(lookup time.Duration) {
+					ev.Head, ev.Tail, ev.Holes, ev.Orphans, ev.NonCanon = 0, 0, []int{}, []int{}, 0
+					if hd, err := n.st.Head(bg); err == nil {
+						ev.Head = int(hd.Height())
+					}
+					if tl, err := n.st.Tail(bg); err == nil {
+						ev.Tail = int(tl.Height())
+					}
+					for h := 1; h <= N+2; h++ {
+						ctx, cancel := context.WithTimeout(bg, lookup)
+						got, err := n.st.GetByHeight(ctx, uint64(h))
+						cancel()
+						in := ev.Tail != 0 && h >= ev.Tail && h <= ev.Head
+						if err != nil && in {
+							ev.Holes = append(ev.Holes, h)
+						}
+						if err == nil && !in {
+							ev.Orphans = append(ev.Orphans, h)
+						}
+						if err == nil && !chain.IsCanon(got) {
+							ev.NonCanon++
+						}
+					}
 				}
-				if tl, err := n.st.Tail(bg); err == nil {
-					ev.Tail = int(tl.Height())
-				}
-				for h := 1; h <= N+2; h++ {
-					ctx, cancel := context.WithTimeout(bg, time.Millisecond)
-					got, err := n.st.GetByHeight(ctx, uint64(h))
-					cancel()
-					in := ev.Tail != 0 && h >= ev.Tail && h <= ev.Head
-					if err != nil && in {
-						ev.Holes = append(ev.Holes, h)
+				if realtime {
+					for try := 0; try < 50; try++ {
+						scan(50 * time.Millisecond)
+						if len(ev.Holes) == 0 && len(ev.Orphans) == 0 {
+							break
+						}
+						time.Sleep(10 * time.Millisecond)
 					}
-					if err == nil && !in {
-						ev.Orphans = append(ev.Orphans, h)
-					}
-					if err == nil && !chain.IsCanon(got) {
-						ev.NonCanon++
-					}
+				} else {
+					scan(time.Millisecond)
 				}
 				if bad != nil {
 					if _, err := n.st.Get(bg, bad.Hash()); err == nil {
